@@ -57,7 +57,15 @@ def main(tier, seed):
             stats["perm_via_matrix"] = stats.get("perm_via_matrix", 0) + 1
         try:
             o1, s1 = impl_fit(it); p1, _ = impl_predict(o1, it)
-            o2, s2 = impl_fit(itp); p2, _ = impl_predict(o2, itp)
+            if i % 3 == 2:
+                # the reshuffled set is learnt by the SAME object (a classifier trained again on the same samples in another
+                # order): nothing of the first training may leak into the second
+                o1.fit(np.array(itp.X, dtype=float)[:n].copy(), np.array(itp.labels))
+                o2, s2 = o1, node_state(o1.subgraph)
+                stats["perm_same_object"] = stats.get("perm_same_object", 0) + 1
+            else:
+                o2, s2 = impl_fit(itp)
+            p2, _ = impl_predict(o2, itp)
         except Exception as ex:
             nviol += 1
             if nviol <= 3:
